@@ -32,8 +32,14 @@ Definition dot_char (c : N) : bool := negb (in_ranges c [(0, 31); (127, 127)]).
 (* the text between the brackets of a slice: start ':' end, then ':' step when written *)
 Definition slice_body (a b : list N) (c : option (list N)) : list N :=
   a ++ 58 :: b ++ match c with Some t => 58 :: t | None => [] end.
+(* one subscript of a union: an index (optionally signed), a slice, or the wildcard *)
+Inductive usub := UIdx (t : list N) | USlice (a b : list N) (c : option (list N)) | UWild.
+Definition render_sub (u : usub) : list N :=
+  match u with UIdx t => t | USlice a b c => slice_body a b c | UWild => [42] end.
+Definition render_union (u : usub) (us : list usub) : list N := render_sub u ++ flat_map (fun v => 44 :: render_sub v) us.
 Inductive kstep := SBr (q : N) (k : list N) | SDot (k : list N) | SIdx (ds : list N) | SWild (dot : bool)
-                 | SSlice (a b : list N) (c : option (list N)).
+                 | SSlice (a b : list N) (c : option (list N))
+                 | SUnion (u : usub) (us : list usub).
 Definition render_step (s : kstep) : list N :=
   match s with
   | SBr q k => 91 :: q :: esc_cps q k ++ [q; 93]
@@ -42,8 +48,9 @@ Definition render_step (s : kstep) : list N :=
   | SWild true => [46; 42]
   | SWild false => [91; 42; 93]
   | SSlice a b c => 91 :: slice_body a b c ++ [93]
+  | SUnion u us => 91 :: render_union u us ++ [93]
   end.
-Definition step_cps (s : kstep) : list N := match s with SBr _ k | SDot k => k | SIdx ds => ds | SWild _ => [] | SSlice _ _ _ => [] end.
+Definition step_cps (s : kstep) : list N := match s with SBr _ k | SDot k => k | SIdx ds => ds | SWild _ => [] | SSlice _ _ _ => [] | SUnion _ _ => [] end.
 (* a step, or `..` followed by a step *)
 Inductive rstep := RPlain (s : kstep) | RRec (s : kstep).
 (* after `..` a dot name is written without its dot, and the wildcard as a bare * *)
